@@ -368,6 +368,19 @@ def _branch(an, sw, val, pre=None):
                 break
         else:
             break
+    # one spelling per comparison: `!c`, `a <= b`, `a >= b`, `a > b` are told as c / b < a / a < b / b < a with the branch value adjusted
+    flip = {"0": "otherwise", "otherwise": "0"}
+    for _ in range(4):
+        if d[0] == "Not" and len(d) == 2 and val in flip:
+            d, val = d[1], flip[val]
+        elif d[0] == "Le" and len(d) == 3 and val in flip:
+            d, val = ("Lt", d[2], d[1]), flip[val]
+        elif d[0] == "Ge" and len(d) == 3 and val in flip:
+            d, val = ("Lt", d[1], d[2]), flip[val]
+        elif d[0] == "Gt" and len(d) == 3:
+            d = ("Lt", d[2], d[1])
+        else:
+            break
     return d, val
 
 
@@ -472,6 +485,11 @@ def early_exits(an, rep, rule, key, w, early_ok, what, target=None, subject="the
                 continue
             d, val = _branch(an, b, vals[0], pre)
             n += 1
+            if _only_errors_from(an, t, reach):
+                # the by-pass ends in an error on every path (a failed step reported with an explicit `match .. => return Err(..)`
+                # instead of `?`): an early error is not an early answer
+                rep.ok(rule, "%s:early|%s|%s" % (key, show(d)[:160], val), w, "%s is by-passed on %s=%s into an error on every path" % (subject, show(d)[:120], val))
+                continue
             if d[0] == "discr" and d[1][0] == "call" and d[1][1] == "ops::Try::branch":
                 ok = val == "1"
                 why = "continues past a failed read"
@@ -502,6 +520,37 @@ def ctor_refusals(rep, rule, key, an, w):
             stray.append("%s %s" % (c[0], [show(x)[:80] if isinstance(x, tuple) else x for x in c[1:3]]))
     rep.require(not stray, rule, key + ":refusals", w, "%d error outcomes: header unreadable, count conversion / overflow, range outside the data" % n,
                 "the constructor refuses tables for a reason other than the declared layout not fitting the bytes (%s): a well-formed table cannot be looked up" % "; ".join(stray)[:300])
+
+
+def _only_errors_from(an, t, stay_out):
+    """every way from block t to the function's return (without re-entering `stay_out`) returns an Err value: along each path the
+    return place holds a concrete Err(..) before the paths merge into the common return block"""
+    L0 = (("L", 0), ())
+    seen, work = {t}, [t]
+    n_ret = 0
+    while work:
+        x = work.pop()
+        if an.blocks[x]["term"]["k"] == "return":
+            return False                      # reached the return without a concrete value on this path
+        for s_ in an.succs[x]:
+            if (x, s_) not in an.feasible or an.blocks[s_]["term"]["k"] == "unreachable":
+                continue
+            if s_ in stay_out:
+                return False
+            st_ = an.out_states.get((x, s_))
+            v = st_.env.get(L0) if st_ is not None else None
+            if v is not None:
+                v = an.simp(v, st_.facts)
+                if v.op == "agg" and v.args[1] == "result::Result":
+                    if v.args[3] != "Err":
+                        return False
+                    n_ret += 1
+                    continue                   # this path returns that error (nothing after the assignment can turn it into an answer
+                                               # except another assignment, which the value-numbered env would show)
+            if s_ not in seen:
+                seen.add(s_)
+                work.append(s_)
+    return n_ret > 0
 
 
 def _justified(d, val, early_ok, depth=0):
